@@ -219,15 +219,18 @@ def expandLoop (st : St S M) (cur : S) : List M → Option (St S M)
 
 def collapse (c : Node M) : Node M := { c with expanded := false, children := [] }
 
+/-- the proof depth `updateAncestors` assigns to a solved node; a child of a node with δ = 0 whose φ is
+not 0 is `panic("inconsistent")` -/
+def solvedDepth (node : Node M) : Except Err UInt16 :=
+  if node.delta == 0 then
+    if node.children.any (fun c => c.phi != 0) then .error (.panic "inconsistent")
+    else .ok (node.children.foldl (fun d c => if c.proofDepth > d then c.proofDepth else d) 0 + 1)
+  else
+    .ok (node.children.foldl (fun d c => if c.delta != 0 then d else if c.proofDepth < d then c.proofDepth else d) (32768 : UInt16) + 1)
+
 /-- the solved-node bookkeeping of `updateAncestors` (proof depth, statistics, dropping children) -/
 def solvedUpdate (isRoot : Bool) (cfg : Cfg) (stats : Stats) (node : Node M) : Except Err (Stats × Node M) :=
-  let pd : Except Err UInt16 :=
-    if node.delta == 0 then
-      if node.children.any (fun c => c.phi != 0) then .error (.panic "inconsistent")
-      else .ok (node.children.foldl (fun d c => if c.proofDepth > d then c.proofDepth else d) 0 + 1)
-    else
-      .ok (node.children.foldl (fun d c => if c.delta != 0 then d else if c.proofDepth < d then c.proofDepth else d) (32768 : UInt16) + 1)
-  match pd with
+  match solvedDepth node with
   | .error e => .error e
   | .ok d =>
     let node := { node with proofDepth := d }
@@ -237,35 +240,37 @@ def solvedUpdate (isRoot : Bool) (cfg : Cfg) (stats : Stats) (node : Node M) : E
     let node := if !isRoot && !cfg.preserveSolved then { node with children := [] } else node
     .ok (stats, node)
 
-/-- `updateAncestors(node)`, cursor on `node`; `base` = number of crumbs above `p.root` -/
+/-- one round of the loop of `updateAncestors(node)`, cursor on `node`: renumber it; the flag says
+whether the loop goes on with the parent (`false` = `return node`).  `base` = number of crumbs above `p.root`. -/
+def updateStep (base : Nat) (st : St S M) : Except Err (Bool × St S M) :=
+  match st.stack with
+  | [] => .error (.panic "inconsistent current position")
+  | cur :: _ =>
+    let oldphi := st.focus.phi
+    let olddelta := st.focus.delta
+    -- ghost: a solved node without children (dropped, or never expanded) is numbered again
+    let st := { st with anomaly := st.anomaly ||
+      (st.focus.children.isEmpty && (oldphi == 0 || olddelta == 0)) }
+    let node := setNumbers G cur st.focus
+    let isRoot := st.up.length == base
+    if node.phi == 0 || node.delta == 0 then
+      match solvedUpdate isRoot st.cfg st.stats node with
+      | .error e => .error e
+      | .ok (stats, node) => .ok (!isRoot, { st with focus := node, stats := stats })
+    else if node.phi == oldphi && node.delta == olddelta then .ok (false, { st with focus := node })
+    else .ok (!isRoot, { st with focus := node })
+
+/-- `updateAncestors(node)`, cursor on `node` -/
 def updateAncestors (base : Nat) : Nat → St S M → Except Err (St S M)
   | 0, _ => .error (.hang "updateAncestors")
   | fuel+1, st =>
-    match st.stack with
-    | [] => .error (.panic "inconsistent current position")
-    | cur :: _ =>
-      let oldphi := st.focus.phi
-      let olddelta := st.focus.delta
-      -- ghost: a solved node without children (dropped, or never expanded) is numbered again
-      let st := { st with anomaly := st.anomaly ||
-        (st.focus.children.isEmpty && (oldphi == 0 || olddelta == 0)) }
-      let node := setNumbers G cur st.focus
-      let isRoot := st.up.length == base
-      let r : Except Err (Option (St S M)) :=   -- none = `return node`
-        if node.phi == 0 || node.delta == 0 then
-          match solvedUpdate isRoot st.cfg st.stats node with
-          | .error e => .error e
-          | .ok (stats, node) => .ok (some { st with focus := node, stats := stats })
-        else if node.phi == oldphi && node.delta == olddelta then .ok none
-        else .ok (some { st with focus := node })
-      match r with
-      | .error e => .error e
-      | .ok none => .ok { st with focus := node }
-      | .ok (some st1) =>
-        if isRoot then .ok st1
-        else match ascend st1 with
-          | none => .error (.panic "ascend")
-          | some st2 => updateAncestors base fuel st2
+    match updateStep G base st with
+    | .error e => .error e
+    | .ok (false, st1) => .ok st1
+    | .ok (true, st1) =>
+      match ascend st1 with
+      | none => .error (.panic "ascend")
+      | some st2 => updateAncestors base fuel st2
 
 /-- `for p.checkNode != p.root { p.ascend() }` -/
 def ascendTo (base : Nat) : Nat → St S M → Option (St S M)
